@@ -23,4 +23,7 @@ TEXTS = {
     "C10": {"technique": "runtime monitoring: exhaustive truth-table comparison of create_loc_stack_checker(pred).check_loc_stack with a reference predicate evaluator + marker-loader integration leg",
             "level": "exploration, exhaustive inside the stated universe (atoms x expressions of nesting <= 1/2 x stacks of depth <= 2/3), sampled beyond: " + _EXPL,
             "note": "the tutorial's example P[Foo].name[Bar].age contradicts the tail rule of the property statement (see DESIGN.md); the statement's rule is the oracle"},
+    "C11": {"technique": "runtime monitoring: warmed-vs-fresh retort differential over generated call histories (exhaustive ordered pairs of a confusable-request pool) with a call-cache hit monitor",
+            "level": "exploration, exhaustive over ordered pairs of the pool, random for longer histories: " + _EXPL,
+            "note": "fresh reference = new Retort in the same process with normalize_type's lru cache cleared"},
 }
